@@ -202,6 +202,16 @@ def run_job(job):
             v = ('split %s gives %s, one-shot gives %s' %
                  (summ(cuts), show(got), show(one)))
             cls = 'split-dependent'
+        elif len(cuts) <= 1 and wire_bytes:
+            # zero-length pieces (an empty read) at the start and between pieces
+            for ps in ([b''] + pieces, pieces[:1] + [b''] + pieces[1:], pieces + [b'']):
+                g2 = stream_decode(declared, ps)
+                res['evaluations'] += 1
+                if g2 != one:
+                    v = ('pieces with an empty piece (lengths %s) give %s, one-shot gives %s'
+                         % ([len(x) for x in ps], show(g2), show(one)))
+                    cls = 'empty-piece'
+                    break
         elif ref[0] == 'err' and got[0] == 'ok':
             v = ('corrupt/truncated data returned as %d bytes of content instead of a '
                  'protocol error' % len(got[1]))
@@ -463,6 +473,11 @@ def replay(rec):
     wire = rec['wire'].encode('latin-1')
     got = stream_decode(rec['declared'], split(wire, rec['cuts']))
     one = stream_decode(rec['declared'], [wire] if wire else [])
+    if rec['signature'].endswith(':empty-piece'):
+        pieces = split(wire, rec['cuts'])
+        bad = any(stream_decode(rec['declared'], ps) != one for ps in
+                  ([b''] + pieces, pieces[:1] + [b''] + pieces[1:], pieces + [b'']))
+        return (rec['violation'] if bad else None), rec['signature'] if bad else None, show(one)
     ref = reference(rec['declared'], wire)
     bad = got != one or (ref[0] == 'err' and got[0] == 'ok') or \
         (ref[0] == 'ok' and got != ref)
